@@ -686,7 +686,7 @@ func init() {
 		Shards: shards(14, 16),
 		Meta: func(tier string) rt.Meta {
 			return rt.Meta{Level: "exploration", MinEvals: 20000, MinDistinct: 200,
-				Rule:        "(a) reflection-driven adversarial sweep: the method sets of MemFS, OrefaFS, RoFS and BasePathFS over both, FailFS, a Sub view, MemIdm and of their File handles (regular read/write/append, directory, closed, nil typed handle returned together with an error) are walked with reflect and every parameter is filled from a hostile domain chosen by its Go type (paths: empty, ., .., /, //, unclean, NUL and backslash, 300-byte names, 400-byte paths, glob metacharacters; integers: MinInt64, -1, 0, boundaries up to 1 MiB; open flags; file modes incl. type bits; buffers; times; callbacks), after random preceding calls; plus the exported helpers (Glob, WalkDir, CopyFile, HashFile, PathIterator, FromUnixPath, To/FromBasePath, RndTree...). Each call runs under recover() and under the sequential lock hook, which turns a lock that can never be acquired into a logical 'never returns' verdict and counts lock sites for runaway detection. (a') permission-failure scenarios: a tree built by a non-administrator on MemFS, non-empty directories then protected by the administrator, RemoveAll/MkdirAll/Rename/Remove by the owner failing half-way; the call and Stat/ReadDir/Lstat of every directory afterwards must return (a lock kept on an error path is a logical self-deadlock). (a1b) directory handles read in batches (ReadDir/Readdirnames mixed) while entries are removed and created: every call returns. (a2) every FailFS function id failing in turn x composite helpers (ReadFile, WriteFile, CopyFile, HashFile, ReadDir, WalkDir, Glob, MkdirAll, temp helpers, RemoveAll) on files of 0..70000 bytes around the 512-byte and 32 KiB buffers: every call returns. (a3) the sweep over Windows-typed MemFS/OrefaFS/BasePathFS/RoFS/Sub instances with a second volume and a path domain of drive, UNC, device, verbatim and missing-volume spellings and patterns with metacharacters inside the volume name, run by two extra workers from the avfs_setostype build. The injected errors of (a2) are of five classes (opaque, exist, not-exist, permission, EOF) and the failure callback counts against the call's lock-site budget. A CPU-time watcher (40 s of process CPU inside one sequential call) and a 24 GiB address-space cap turn a lock-free loop and an endless allocation into verdicts that name the call. (b) deadlock/panic verdicts of the deterministic scheduler over the C06 programs, over all pairs (plus a third) of methods called by different goroutines on ONE shared file or directory handle, and over dedicated lock-order programs (opposite cross-directory renames, rename against mkdir/remove/open in the involved directories, link against remove, handle operations against path operations on the same node). Signature = type.method | verdict; all non-trivial.",
+				Rule:        "(a) reflection-driven adversarial sweep: the method sets of MemFS, OrefaFS, RoFS and BasePathFS over both, FailFS, a Sub view, MemIdm and of their File handles (regular read/write/append, directory, closed, nil typed handle returned together with an error) are walked with reflect and every parameter is filled from a hostile domain chosen by its Go type (paths: empty, ., .., /, //, unclean, NUL and backslash, 300-byte names, 400-byte paths, glob metacharacters; integers: MinInt64, -1, 0, boundaries up to 1 MiB; open flags; file modes incl. type bits; buffers; times; callbacks), after random preceding calls; plus the exported helpers (Glob, WalkDir, CopyFile, HashFile, PathIterator, FromUnixPath, To/FromBasePath, RndTree...). Each call runs under recover() and under the sequential lock hook, which turns a lock that can never be acquired into a logical 'never returns' verdict and counts lock sites for runaway detection. (a') permission-failure scenarios: a tree built by a non-administrator on MemFS, non-empty directories then protected by the administrator, RemoveAll/MkdirAll/Rename/Remove by the owner failing half-way; the call and Stat/ReadDir/Lstat of every directory afterwards must return (a lock kept on an error path is a logical self-deadlock). (a1b) directory handles read in batches (ReadDir/Readdirnames mixed) while entries are removed and created: every call returns. (a2) every FailFS function id failing in turn x composite helpers (ReadFile, WriteFile, CopyFile, HashFile, ReadDir, WalkDir, Glob, MkdirAll, temp helpers, RemoveAll) on files of 0..70000 bytes around the 512-byte and 32 KiB buffers: every call returns. (a3) the sweep over Windows-typed MemFS/OrefaFS/BasePathFS/RoFS/Sub instances with a second volume and a path domain of drive, UNC, device, verbatim and missing-volume spellings and patterns with metacharacters inside the volume name, run by two extra workers from the avfs_setostype build. The injected errors of (a2) are of five classes (opaque, exist, not-exist, permission, EOF) and the failure callback counts against the call's lock-site budget. Seek to the ends of the int64 range followed by reads and path-level calls on the same file. The dedicated programs of C06 run here too (a deadlock is only counted there). A CPU-time watcher (40 s of process CPU inside one sequential call) and a 24 GiB address-space cap turn a lock-free loop and an endless allocation into verdicts that name the call. (b) deadlock/panic verdicts of the deterministic scheduler over the C06 programs, over all pairs (plus a third) of methods called by different goroutines on ONE shared file or directory handle, and over dedicated lock-order programs (opposite cross-directory renames, rename against mkdir/remove/open in the involved directories, link against remove, handle operations against path operations on the same node). Signature = type.method | verdict; all non-trivial.",
 				Assumptions: []string{"sizes and offsets beyond 1 MiB (allocation bombs on an in-memory file system) and a nil UserReader are outside the domain", "pure-CPU non-termination without lock acquisitions inside the scheduler part (b) would only be caught by the worker watchdog (inconclusive)"}}
 		},
 		CrashIsViolation: true,
